@@ -30,6 +30,7 @@ type Ctx struct {
 	readConeCache map[*ssa.Function]bool
 	depCache      *depInfo
 	consumerCache map[*ssa.Function]bool
+	wrapperCache  map[*ssa.Function]*wrapperInfo
 }
 
 func (c *Ctx) Pos(p token.Pos) string { return c.P.Pos(p) }
